@@ -173,6 +173,17 @@ func (l *staticLeaf) Static() bool {
 		}
 		ancestor = ancestor.getParent()
 	}
+
+	// An earlier optional leaf with the same text (e.g. "/a/?b" before "/a/b") takes
+	// precedence in the tree, the route text alone does not decide the match then.
+	for _, sibling := range l.parent.getLeaves() {
+		if sibling == Leaf(l) {
+			break
+		}
+		if s, ok := sibling.(*staticLeaf); ok && s.literals == l.literals {
+			return false
+		}
+	}
 	return true
 }
 
